@@ -215,7 +215,8 @@ def check_C14(tier, seed):
 
 
 # =============================================================================================== parser runs (L2a)
-def parser_runs(rep, mode, seed, prefix, shards, per_shard, release=False, parsers=None, extra=None):
+def parser_runs(rep, mode, seed, prefix, shards, per_shard, release=False, parsers=None, extra=None,
+                specs=("Trace_Contract",)):
     """Drive the real parsers (vh parsers --mode ...) and validate every run against ParserContract."""
     _clean_traces(prefix)
     paths, procs = [], []
@@ -227,16 +228,48 @@ def parser_runs(rep, mode, seed, prefix, shards, per_shard, release=False, parse
                "--count", str(per_shard)] + (["--parsers", parsers] if parsers else []) + (extra or [])
         procs.append(subprocess.Popen(cmd, cwd=vlib.ROOT, stdout=subprocess.PIPE, stderr=subprocess.PIPE, text=True))
     nruns = ninputs = 0
-    for pr in procs:
+    for si, pr in enumerate(procs):
         out, err = pr.communicate(timeout=3000)
+        if pr.returncode < 0 or pr.returncode in (101, 134, 139):
+            # the driver process died (abort on allocation failure, stack overflow, ...): that is data (C05).
+            # Re-run the shard one input per process to find the inputs that kill it.
+            culprits = _isolate(exe, mode, seed, si * per_shard, per_shard, parsers, extra)
+            if not culprits:
+                raise ToolError("vh parsers --mode %s died (exit %d) but no single input reproduces it: %s"
+                                % (mode, pr.returncode, err[-800:]))
+            for (iid, rc, info) in culprits:
+                rep.violation({"kind": "process-died", "mode": mode, "exit": rc, "parser": info.get("parser", ""),
+                               "object": "parser", "event": "abort", "op": "", "spec": "ParserContract", "panic": False},
+                              {"spec": None, "how_to_replay": "vh parsers --mode %s --seed %d --first %d --count 1" % (mode, seed, iid),
+                               "exit_status": rc, "last_reset_record": info})
+            # the rest of the shard is validated without the culprits
+            keep = [i for i in range(si * per_shard, (si + 1) * per_shard) if i not in {c[0] for c in culprits}]
+            with open(paths[si], "w") as fh:
+                pass
+            for i in keep:
+                tmp = paths[si] + ".part"
+                r2 = subprocess.run([exe, "parsers", "--mode", mode, "--out", tmp, "--seed", str(seed), "--first", str(i),
+                                     "--count", "1"] + (["--parsers", parsers] if parsers else []) + (extra or []),
+                                    cwd=vlib.ROOT, stdout=subprocess.PIPE, stderr=subprocess.PIPE, text=True)
+                if r2.returncode == 0:
+                    with open(paths[si], "a") as fh, open(tmp) as src:
+                        fh.write(src.read())
+                    o = json.loads(r2.stdout.strip().splitlines()[-1])
+                    nruns += o["runs"]
+                    ninputs += o["inputs"]
+            continue
         if pr.returncode != 0:
             raise ToolError("vh parsers --mode %s failed (exit %d): %s" % (mode, pr.returncode, err[-1500:]))
         o = json.loads(out.strip().splitlines()[-1])
         nruns += o["runs"]
         ninputs += o["inputs"]
-    res = validate_traces(prefix, "Trace_Contract", "Trace_Contract.cfg", paths, timeout=2400)
-    _report_rejects(rep, "Trace_Contract", res["rejected"],
-                    "vh parsers --mode %s --seed %d (run id in reset record); ./check %s --replay <this file>" % (mode, seed, rep.prop))
+    res = {"states": 0, "rejected": []}
+    for sp in specs:
+        r1 = validate_traces(prefix + sp[6:9], sp, sp + ".cfg", paths, timeout=2400)
+        _report_rejects(rep, sp, r1["rejected"],
+                        "vh parsers --mode %s --seed %d (run id in reset record); ./check %s --replay <this file>" % (mode, seed, rep.prop))
+        res["states"] += r1["states"]
+        res["rejected"] += r1["rejected"]
     # distinct non-trivial runs: at least one refill and at least one item or error
     seen = set()
     nt = 0
@@ -273,6 +306,34 @@ def parser_runs(rep, mode, seed, prefix, shards, per_shard, release=False, parse
         rep.cov["samples"].append({"parser_run(%s)" % mode: sample})
     _clean_traces(prefix)
     return nruns
+
+
+def _isolate(exe, mode, seed, first, count, parsers, extra):
+    culprits = []
+    tmp = os.path.join(TRACES, "isolate_%d.ndjson" % os.getpid())
+    for i in range(first, first + count):
+        r = subprocess.run([exe, "parsers", "--mode", mode, "--out", tmp, "--seed", str(seed), "--first", str(i), "--count", "1"]
+                           + (["--parsers", parsers] if parsers else []) + (extra or []),
+                           cwd=vlib.ROOT, stdout=subprocess.PIPE, stderr=subprocess.PIPE, text=True, timeout=600)
+        if r.returncode != 0:
+            info = {}
+            try:
+                with open(tmp) as fh:
+                    for line in fh:
+                        if '"ev":"reset"' in line[:600]:
+                            info = json.loads(line)
+                info = {k: (bytes(v).decode("latin1") if k == "input" else v) for k, v in info.items() if k in
+                        ("parser", "lit", "flag", "input", "policy", "chunk")}
+            except Exception:
+                pass
+            culprits.append((i, r.returncode, info))
+            if len(culprits) >= 5:
+                break
+    try:
+        os.remove(tmp)
+    except OSError:
+        pass
+    return culprits
 
 
 CONTRACT_RULE = ("every run (seven parsers, all literal types, generated / seed / mutated inputs) is recorded call by call "
@@ -336,9 +397,11 @@ def check_C08(tier, seed):
     if tier == QUICK:
         parser_runs(rep, "robust", seed + 50, "c08a_", 12, 400)
         parser_runs(rep, "sched", seed + 51, "c08b_", 6, 100)
+        parser_runs(rep, "sched", seed + 52, "c08c_", 12, 60, parsers=DIMACS, specs=("Trace_Dimacs",))
     else:
         parser_runs(rep, "robust", seed + 50, "c08a_", 14, 8000)
         parser_runs(rep, "sched", seed + 51, "c08b_", 14, 1500)
+        parser_runs(rep, "sched", seed + 52, "c08c_", 14, 1200, parsers=DIMACS, specs=("Trace_Dimacs",))
     rep.cov["rule"] = ("sentence 1: at every give_up event of every run the line must be the number of LFs before the line "
                        "start plus one, position >= line start, column = position - line start + 1 <= line length + 1, and "
                        "every line_at_offset event must announce exactly the next line start of the input (text formats); "
@@ -361,6 +424,50 @@ def check_C09(tier, seed):
                        "well-formed documents of every streaming parser through a source that returns at most one line per "
                        "read (chunk 16384, 8, 1): when an item is returned, the bytes delivered must not exceed the end of "
                        "the line that completes it. " + CONTRACT_RULE)
+    return rep.finish()
+
+
+DIMACS = "cnf,wcnf,gcnf"
+BOTH = ("Trace_Contract", "Trace_Dimacs")
+
+
+def check_C06(tier, seed):
+    rep = Report("C06", tier, seed, "model_checking")
+    res = tlc_mc("mc_digits", "MC_Digits", "MC_Digits_%s.cfg" % ("quick" if tier == QUICK else "thorough"), timeout=2400)
+    mc_must_pass(rep, res, "MC_Digits")
+    if tier == QUICK:
+        parser_runs(rep, "bounds", seed, "c06_", 12, 150, parsers=DIMACS, specs=BOTH)
+        parser_runs(rep, "sched", seed + 3, "c06s_", 12, 40, parsers=DIMACS, specs=("Trace_Dimacs",))
+    else:
+        parser_runs(rep, "bounds", seed, "c06_", 14, 3000, parsers=DIMACS, specs=BOTH)
+        parser_runs(rep, "sched", seed + 3, "c06s_", 14, 600, parsers=DIMACS, specs=("Trace_Dimacs",))
+        parser_runs(rep, "bounds", seed + 5, "c06r_", 14, 1500, parsers=DIMACS, specs=("Trace_Dimacs",), release=True)
+    rep.cov["rule"] = ("the Dimacs grammar machine (one TLA+ operator per token function, numerals as arbitrary-precision digit "
+                       "sequences, type bounds checked by MC_Digits) computes from the input bytes what every call must "
+                       "return: documents with numerals on and around every limit (literal type bounds, declared variable / "
+                       "clause / group counts incl. 0 = unspecified, u64 weights, 7..9-digit numerals, leading zeros), both "
+                       "ignore_header settings, all five literal types, in one read and with 1-byte reads; acceptance, values "
+                       "and error locations must equal the machine's. " + CONTRACT_RULE)
+    rep.assumptions += ["AIGER and BTOR2 number/limit semantics are covered at contract level (C01/C05) and by the round-trip "
+                        "check C03 only; their token-level machines are not built (DESIGN.md fallback)"]
+    return rep.finish()
+
+
+def check_C07(tier, seed):
+    rep = Report("C07", tier, seed, "model_checking")
+    res = tlc_mc("mc_scan", "MC_Scan", "MC_Scan_%s.cfg" % ("quick" if tier == QUICK else "thorough"), timeout=2400)
+    mc_must_pass(rep, res, "MC_Scan")
+    if tier == QUICK:
+        parser_runs(rep, "layout", seed, "c07_", 12, 120, parsers=DIMACS + ",log", specs=BOTH)
+    else:
+        parser_runs(rep, "layout", seed, "c07_", 14, 2500, parsers=DIMACS + ",log", specs=BOTH)
+    rep.cov["rule"] = ("abstract formulas / solver logs are rendered canonically and in 6 alternative layouts each (blank and "
+                       "tab runs, trailing blanks, CRLF, blank lines, comment lines before the header / between clauses / "
+                       "between the lines of a clause, clauses split over lines, missing final newline, leading zeros, -0; "
+                       "value lines split anywhere, comment and - when ignored - unknown lines anywhere): ParserContract "
+                       "requires every layout to return the canonical rendering's items and a clean end, and the Dimacs "
+                       "machine requires each run to be what the token grammar says. " + CONTRACT_RULE)
+    rep.assumptions += ["the solver-log parser is held to the contract (equal results across layouts), not to a token-level machine"]
     return rep.finish()
 
 
